@@ -704,6 +704,8 @@ func directedWsSessions() []*wsSession {
 	for _, s := range ss {
 		wsPre(s)
 	}
+	// ---- round 6 (envelope.go): what one operation's payload leaves behind for the next one on the connection
+	ss = append(ss, directedEnvSessions()...)
 	return ss
 }
 
@@ -733,6 +735,9 @@ func randomWsSession(g *gen) *wsSession {
 			} else {
 				s.Ops = append(s.Ops, subOp(newID(), k, t, []string{"T", "U"}[g.pick(2)]))
 			}
+			if g.chance(30) { // round 6: the payload carries further members of the envelope
+				s.Ops[k].Payload = envDecorate(g, s.Ops[k].Payload, false)
+			}
 			s.Evs = append(s.Evs, wsEv{"start", k})
 			live, left[k] = append(live, k), t
 		case x < 45:
@@ -741,6 +746,12 @@ func randomWsSession(g *gen) *wsSession {
 			if g.chance(25) {
 				mt := mergeTexts()
 				p = wsPayload(mt[g.pick(len(mt))], "", varSets[mergeVarFirst+4-g.pick(5)])
+			}
+			if g.chance(30) { // round 6: an operation that shows everything its operation context holds
+				p = envReaderPayload(g)
+			}
+			if g.chance(30) { // ... and payloads that carry further members of the envelope
+				p = envDecorate(g, p, true)
 			}
 			id := newID()
 			if g.chance(25) { // a query whose resolver reports through the same side channel
